@@ -4,6 +4,7 @@ package c03
 import (
 	"os"
 	"testing"
+	"verifharness/internal/watchdog"
 
 	"pgregory.net/rapid"
 
@@ -23,14 +24,14 @@ func TestC03Addresses(t *testing.T) {
 		maxSteps = 50
 	}
 	rapid.Check(t, func(t *rapid.T) {
-		c := g.Begin()
-		defer c.End()
-		m := mgrsim.New(t, "C03", c)
-		defer m.Close()
-		m.Run(t, weights, 4, maxSteps, 0, func(op string) {
-			m.CheckAllIssued("after " + op)
+		watchdog.Case(t, "C03", g, func(c *evid.Case) {
+			m := mgrsim.New(t, "C03", c)
+			defer m.Close()
+			m.Run(t, weights, 4, maxSteps, 0, func(op string) {
+				m.CheckAllIssued("after " + op)
+			})
+			classify(m, c)
 		})
-		classify(m, c)
 	})
 }
 
